@@ -4,7 +4,7 @@ from __future__ import annotations
 import numpy as np
 from scipy.spatial.transform import Rotation
 
-from vcheck import gen
+from vcheck import gen, ref
 
 PROP = "C04"
 CONTRACTS = ("K1",)
@@ -69,6 +69,7 @@ def cases(tier, seed):
             "tilt": ("none", "none", "y60", "y4055", "x50", "dual")[int(rng.integers(0, 6))],
             "quat": [float(x) for x in (gen.random_rotation(rng).as_quat() if rng.random() < 0.6 else [0, 0, 0, 1.0])],
             "nd": 5, "iseed": int(rng.integers(0, 2**31)),
+            "wide": bool(rng.random() < 0.2 and min(shape) <= 14 and model != "FSC"),
             "cost": (4.0 * (2 * np.ceil(M) + 1) ** 3 / 50 if model == "FSC" else 1.0) + float(np.prod(shape)) / 4000,
         })
     return out
@@ -110,21 +111,65 @@ def displacements(rng, Ms, n):
     return out
 
 
-def classify(model, Ms, d, got, err, tilt, mask, shape):
+def fsc_integer_peak(img, tmpl, mask, Ms, cutoff, wedge_mask):
+    """Independent integer-grid landscape of the mean shell correlation (shell width 1/min(shape), shells without
+    power skipped) between the pre-processed sub-volume shifted by -s and the pre-processed template; returns the
+    integer shift s* with the highest value.  This is what the *design* of FSC alignment (integer shifts only,
+    then a spline refinement around the best one) starts from."""
+    shape = img.shape
+    m = 1.0 if mask is None else np.asarray(mask, float)
+    c = 1.0 if cutoff is None else cutoff
+    f0 = ref.lowpass_ft(np.asarray(img, float) * m, c, 2) * wedge_mask
+    f1 = ref.lowpass_ft(np.asarray(tmpl, float) * m, c, 2) * wedge_mask
+    fs = np.meshgrid(*[np.fft.fftfreq(n) for n in shape], indexing="ij")
+    lab = (np.sqrt(sum(f ** 2 for f in fs)) * min(shape)).astype(int).ravel()
+    nl = int(lab.max()) + 1
+    p1 = np.bincount(lab, (np.abs(f1) ** 2).ravel(), nl)
+    p0 = np.bincount(lab, (np.abs(f0) ** 2).ravel(), nl)
+    valid = (p0 > 0) & (p1 > 0)
+    rng_ = [np.arange(-int(np.ceil(M)), int(np.ceil(M)) + 1) for M in Ms]
+    best, arg = -np.inf, None
+    kz, ky, kx = [np.fft.fftfreq(n) for n in shape]
+    for sz in rng_[0]:
+        ez = np.exp(2j * np.pi * kz * sz)[:, None, None]
+        for sy in rng_[1]:
+            ey = np.exp(2j * np.pi * ky * sy)[None, :, None]
+            for sx in rng_[2]:
+                ex = np.exp(2j * np.pi * kx * sx)[None, None, :]
+                cov = np.bincount(lab, ((f0 * ez * ey * ex) * np.conj(f1)).real.ravel(), nl)
+                v = float(np.mean(cov[valid] / np.sqrt(p0[valid] * p1[valid]))) if valid.any() else 0.0
+                if v > best:
+                    best, arg = v, (sz, sy, sx)
+    return np.asarray(arg, float)
+
+
+def classify(model, Ms, d, got, err, tilt, mask, shape, ident=True, fsc_peak=None):
     """Mechanism key for an exceedance of the stated accuracy (structural features only)."""
     Ms = np.asarray(Ms, float)
     d = np.asarray(d, float)
+    got = np.asarray(got, float)
     edge = float(np.min(Ms - np.abs(d)))
     wedge = tilt != "none"
     if model in ("ZNCC", "NCC"):
         if wedge and err <= 0.5:
             return "ncc.wedge-subpixel-bias"
+        # signature of the bias for an unrotated molecule under a single-axis wedge: only the component along the
+        # beam (z) is off, and it is under-estimated (pulled towards zero)
+        e = np.abs(got - d)
+        if wedge and ident and tilt != "dual" and e[1] <= 0.15 and e[2] <= 0.15 and e[0] <= 0.8 and \
+                abs(got[0]) <= abs(d[0]) + 0.05 and got[0] * d[0] >= -0.05:
+            return "ncc.wedge-subpixel-bias"
         if not wedge and err <= 0.15 and (edge < 0.2 or min(shape) <= 12):
             return "ncc.subpixel-tail"
     if model == "PCC" and wedge and err <= 0.2:
         return "pcc.wedge-subpixel-tail"
-    if model == "FSC" and err <= (1.5 if wedge else 0.97):
-        return "fsc.integer-grid-accuracy"
+    if model == "FSC":
+        if err <= (1.5 if wedge else 0.97):
+            return "fsc.integer-grid-accuracy"
+        # larger errors belong to the same design only if the result is the refinement of the best *integer* shift
+        # of an independently computed landscape (the integer peak itself is misplaced for sharp particles)
+        if fsc_peak is not None and float(np.abs(got - np.clip(fsc_peak, -Ms, Ms)).max()) <= 0.75:
+            return "fsc.integer-grid-accuracy"
     return None
 
 
@@ -162,15 +207,28 @@ def run(case):
     pos = np.zeros(3, np.float32)
     loose = p["model"] == "FSC" or p["mask"] != "none"
     tol = TOLERANCES["loose_px"] if loose else TOLERANCES["tight_px"]
-    gain = float(rng.choice([1.0, 0.01, 250.0]))
+    gain = float(rng.choice([1.0, 0.01, 250.0, 1e-3, 1e-4]))
     offset = float(rng.choice([0.0, 3.0])) if p["model"] == "ZNCC" and p["mask"] == "none" else 0.0
     # a modest common background level of template and copy (the copy is still an exact displaced copy)
     bg = float(rng.choice([0.0, 0.0, 0.2])) * float(tmpl.max()) if p["mask"] == "none" else 0.0
-    if bg:
-        tmpl = (tmpl + np.float32(bg)).astype(np.float32)
+    # data of low overall intensity: template and sub-volume share a small common factor
+    tg = float(rng.choice([1.0, 1.0, 1e-3, 1e-4]))
+    if bg or tg != 1.0:
+        tmpl = ((tmpl + np.float32(bg)) * np.float32(tg)).astype(np.float32)
         model = Model(tmpl, mask, **kw)
-        case.count("with_background")
-    for d in displacements(rng, Ms, p["nd"]):
+        case.count("with_background" if bg else "low_intensity")
+        if tg != 1.0:
+            # the same small factor on template, sub-volume and offset (float32 cannot hold a contrast of 1e-7 on a
+            # background of 3, whatever the algorithm)
+            gain, offset = tg, offset * tg
+    # a search range wider than half the box along one axis (the displacement itself stays small)
+    Ms_d = list(Ms)
+    if p.get("wide"):
+        axw = int(rng.integers(0, 3))
+        Ms = list(Ms)
+        Ms[axw] = float(np.round(shape[axw] / 2 + rng.uniform(0.3, 2.5), 2))
+        case.count("range_beyond_half_box")
+    for d in displacements(rng, Ms_d, p["nd"]):
         img = ((gen.render_box(shape, blobs, d=d, dtype=np.float64) + bg) * gain + offset).astype(np.float32)
         try:
             res = model.align(img, tuple(Ms), quat, pos)
@@ -185,8 +243,14 @@ def run(case):
         frac = np.abs(d - np.round(d)).max()
         if np.abs(d).max() >= 0.3 and frac > 0.05:
             case.nontrivial((p["model"], shape, tuple(np.round(d, 3))))
+        fpk = None
+        if err > tol and p["model"] == "FSC" and err > (1.5 if p["tilt"] != "none" else 0.97):
+            mw_ = np.asarray(model.get_missing_wedge_mask(quat)).astype(float) if tm is not None else 1.0
+            fpk = fsc_integer_peak(img, tmpl, mask, Ms, p["cutoff"], mw_)
+            case.count("fsc_integer_reference_evaluated")
         case.check(err <= tol, "alignment shift differs from the true displacement",
-                   classify(p["model"], Ms, d, sh, err, p["tilt"], p["mask"], shape),
+                   classify(p["model"], Ms, d, sh, err, p["tilt"], p["mask"], shape,
+                            ident=bool(abs(abs(p["quat"][3]) - 1) < 1e-9), fsc_peak=fpk),
                    model=p["model"], d=d, got=sh, err=err, tol=tol, M=Ms, shape=shape, mask=p["mask"],
                    cutoff=p["cutoff"], tilt=p["tilt"], quat=p["quat"])
         case.check(gen.quat_close(res.quat, [0, 0, 0, 1], 1e-6), "translation-only alignment returned a rotation",
@@ -197,8 +261,8 @@ def run(case):
                        mask=p["mask"], tilt=p["tilt"], d=d)
         case.check(np.isfinite(float(res.score)), "non-finite score", score=repr(res.score))
     # fit == align, and the fitted image superimposes on the template
-    d = displacements(rng, Ms, 4)[3]
-    img = (gen.render_box(shape, blobs, d=d, dtype=np.float32) + np.float32(bg)).astype(np.float32)
+    d = displacements(rng, Ms_d, 4)[3]
+    img = ((gen.render_box(shape, blobs, d=d, dtype=np.float32) + np.float32(bg)) * np.float32(tg)).astype(np.float32)
     try:
         out, res_f = model.fit(img, tuple(Ms))
         res_a = model.align(img, tuple(Ms))
